@@ -229,6 +229,156 @@ def obsthrow(g, exc):
     except BaseException as e:
         return ('e', excname(e))
 
+# ---- round 3: the return value of a generator ----
+def GEN0():
+    yield 0
+
+def RG(v):
+    yield 1
+    return v
+
+def RGF(v):
+    try:
+        yield 1
+        return v
+    finally:
+        pass
+
+def RGN(v):
+    return v
+    yield 0
+
+def RGB(v):
+    yield 1
+    return
+
+def RGE(v):
+    yield 1
+
+def RGX(v):
+    for i in range(3):
+        try:
+            try:
+                yield 1
+                return v
+            except KeyError:
+                pass
+        finally:
+            i = i + 1
+
+def RGC(v):
+    try:
+        yield 1
+    except KeyError:
+        return v
+
+def DG(x):
+    r = yield from x
+    return r
+
+def OBYF(x, v):
+    r = yield from x
+    yield ('r', r is v, r)
+
+def drive_send(g):
+    out = []
+    try:
+        out.append(next(g))
+        while True:
+            out.append(g.send(5))
+    except StopIteration:
+        return out
+
+def obsargs(x, v):
+    out = []
+    while True:
+        try:
+            out.append(next(x))
+        except StopIteration as e:
+            a = e.args
+            return (out, a, len(a) == 1 and a[0] is v)
+
+def obsvalue(x, v):
+    out = []
+    while True:
+        try:
+            out.append(next(x))
+        except StopIteration as e:
+            return (out, e.value, e.value is v)
+
+def obsnextd(x):
+    return [next(x, 'D'), next(x, 'D'), next(x, 'D')]
+
+def obsyfthrow(g):
+    out = [next(g)]
+    out.append(g.throw(KeyError))
+    return out
+
+def obsargsthrow(x, v):
+    out = [next(x)]
+    try:
+        out.append(x.throw(KeyError))
+        return 'NOSTOP'
+    except StopIteration as e:
+        a = e.args
+        return (out, a, len(a) == 1 and a[0] is v)
+
+def CN(e):
+    t = type(e)
+    if t is KeyError:
+        return 'KeyError'
+    if t is LookupError:
+        return 'LookupError'
+    if t is StopIteration:
+        return 'StopIteration'
+    if t is GeneratorExit:
+        return 'GeneratorExit'
+    if t is BaseException:
+        return 'BaseException'
+    if t is Exception:
+        return 'Exception'
+    if t is ValueError:
+        return 'ValueError'
+    if t is TypeError:
+        return 'TypeError'
+    if t is RuntimeError:
+        return 'RuntimeError'
+    return '?'
+
+def TGI():
+    try:
+        yield 1
+    except BaseException as e:
+        yield e
+
+def TGO():
+    yield 1
+
+def obsthr(mode, typ, val, hasval):
+    if mode == 'in':
+        x = TGI()
+    else:
+        x = TGO()
+    if mode != 'new':
+        next(x)
+    if mode == 'in':
+        try:
+            if hasval:
+                e = x.throw(typ, val)
+            else:
+                e = x.throw(typ)
+        except TypeError:
+            return 'E:TypeError'
+        return ('y', (CN(e), e.args, e is typ, e is val))
+    try:
+        if hasval:
+            x.throw(typ, val)
+        else:
+            x.throw(typ)
+        return 'NORAISE'
+    except BaseException as e:
+        return ('raised', (CN(e), e.args, e is typ, e is val))
+
 def negkey(v):
     return -v
 
@@ -287,6 +437,24 @@ func c05Show(o py.Object) string {
 		}
 		sort.Strings(p)
 		return "S[" + strings.Join(p, ", ") + "]"
+	case *py.Exception:
+		args, _ := x.Args.(py.Tuple)
+		p := make([]string, len(args))
+		for i, e := range args {
+			p[i] = c05Show(e)
+		}
+		return "X:" + x.Base.Name + "(" + strings.Join(p, ", ") + ")"
+	case *py.Type:
+		return "C:" + x.Name
+	case *py.Generator:
+		return "G"
+	case py.StringDict:
+		var p []string
+		for k, v := range x {
+			p = append(p, k+"="+c05Show(v))
+		}
+		sort.Strings(p)
+		return "D[" + strings.Join(p, ", ") + "]"
 	}
 	return fmt.Sprintf("?%T", o)
 }
@@ -355,6 +523,11 @@ func c05Codes(script string, getitem bool) string {
 }
 
 func c05Producer(kind, script string) string {
+	if strings.HasPrefix(kind, "retg:") { // a generator of template <tmpl> returning the value <script> under <depth> delegators
+		k := strings.Split(kind, ":")
+		depth, _ := strconv.Atoi(k[2])
+		return c05RetChain(k[1], depth, script)
+	}
 	switch kind {
 	case "user":
 		return "It(" + c05Codes(script, false) + ")"
@@ -553,6 +726,50 @@ func c05GenSource(f []string) string {
 	return b.String()
 }
 
+// round 3: `ret <tmpl> <depth> <obs> <expr>` and `thr <mode> <typ> <val|->`
+func c05RetChain(tmpl string, depth int, v string) string {
+	fn := map[string]string{"plain": "RG", "fin": "RGF", "noyield": "RGN", "bare": "RGB", "fall": "RGE", "nested": "RGX", "catch": "RGC"}[tmpl]
+	if fn == "" {
+		panic("bad return template " + tmpl)
+	}
+	p := fn + "(" + v + ")"
+	for i := 0; i < depth; i++ {
+		p = "DG(" + p + ")"
+	}
+	return p
+}
+
+func c05RetSource(f []string) string {
+	depth, _ := strconv.Atoi(f[2])
+	src := "V = " + f[4] + "\n"
+	ch := c05RetChain(f[1], depth, "V")
+	switch f[3] {
+	case "yf":
+		return src + "RES = list(OBYF(" + ch + ", V))"
+	case "yfsend":
+		return src + "RES = drive_send(OBYF(" + ch + ", V))"
+	case "args":
+		return src + "RES = obsargs(" + ch + ", V)"
+	case "value":
+		return src + "RES = obsvalue(" + ch + ", V)"
+	case "nextd":
+		return src + "RES = obsnextd(" + ch + ")"
+	case "yfthrow":
+		return src + "RES = obsyfthrow(OBYF(" + ch + ", V))"
+	case "argsthrow":
+		return src + "RES = obsargsthrow(" + ch + ", V)"
+	}
+	panic("bad observer " + f[3])
+}
+
+func c05ThrSource(f []string) string {
+	src := "TYP = " + f[2] + "\n"
+	if f[3] == "-" {
+		return src + "RES = obsthr('" + f[1] + "', TYP, None, False)"
+	}
+	return src + "VAL = " + f[3] + "\nRES = obsthr('" + f[1] + "', TYP, VAL, True)"
+}
+
 func c05ShowGen(res py.Object) string {
 	t := res.(py.Tuple)
 	var parts []string
@@ -599,6 +816,10 @@ func init() {
 				src = c05ItSource(f)
 			case "gen", "body":
 				src = c05GenSource(f)
+			case "ret":
+				src = c05RetSource(f)
+			case "thr":
+				src = c05ThrSource(f)
 			case "src": // raw source (debugging): rest of the line with \n escapes
 				src = strings.ReplaceAll(strings.TrimPrefix(line, "src "), "\\n", "\n")
 			default:
@@ -616,6 +837,9 @@ func init() {
 			res, ok := g["RES"]
 			if !ok {
 				return "NORES", "-"
+			}
+			if str, ok := res.(py.String); ok && (f[0] == "ret" || f[0] == "thr") {
+				return string(str), ""
 			}
 			if f[0] == "gen" || f[0] == "body" {
 				return c05ShowGen(res), ""
